@@ -336,3 +336,104 @@ def catalogue_grids(excl=frozenset()):
                         out.append(['grid', ver, [], [['a', []]],
                                     [[['a', ['grid', '3.0', [['gm', v]], [['x', [['cm', v]]]], [[['x', v]]]]]]]])
     return out
+
+
+# --------------------------------------------------------------------------
+# C03/C05: values whose *spelling* is part of the draw (number literals, zone-less date-times)
+
+def _digit_group(max_size=6):
+    return st.builds(lambda first, rest: first + u''.join(rest), st.sampled_from('0123456789'),
+                     st.lists(st.sampled_from('0123456789_0123456789'), max_size=max_size - 1))
+
+
+def number_literals(underscores=True):
+    grp = _digit_group() if underscores else st.text(alphabet='0123456789', min_size=1, max_size=6)
+    exp = st.builds(lambda e, s, d: e + s + d, st.sampled_from('eE'), st.sampled_from(['', '+', '-']),
+                    st.text(alphabet='0123456789', min_size=1, max_size=2) | st.sampled_from(['0', '00', '10', '22', '300', '308', '309', '324']))
+    return st.builds(lambda sign, i, f, e: sign + i + f + e, st.sampled_from(['', '', '-']), grp,
+                     st.one_of(st.just(''), grp.map(lambda g: '.' + g)), st.one_of(st.just(''), st.just(''), exp))
+
+
+def lit_value(lit):
+    return float(lit.replace('_', ''))
+
+
+def spelled_numbers(excl=frozenset()):
+    lits = number_literals().map(lambda l: ['num', lit_value(l), l])
+    specials = st.sampled_from([['num', float('inf')], ['num', float('-inf')], ['num', float('nan')]])
+    return st.one_of(lits, lits, lits, specials, numbers(excl))
+
+
+def spelled_quantities(excl=frozenset()):
+    import math
+    return st.builds(lambda l, u: ['qty', lit_value(l), u, l], number_literals(), units(excl)).filter(
+        lambda q: math.isfinite(q[1]))
+
+
+def zoneless_datetimes(whole_hours=False):
+    from .model import dt_text
+    inst = st.datetimes(min_value=datetime.datetime(2, 1, 2), max_value=datetime.datetime(9998, 12, 30)) | \
+        st.datetimes(min_value=datetime.datetime(1970, 1, 1), max_value=datetime.datetime(2040, 1, 1))
+    off = st.integers(-12, 14).map(lambda h: h * 3600)
+    if not whole_hours:
+        off = off | st.integers(-14 * 60, 14 * 60).map(lambda m: m * 60) | st.just(0)
+    us = st.sampled_from([0, 0, 1, 999999, 120000, 500000])
+    return st.builds(lambda i, o, u: ['dt', dt_text(i.replace(microsecond=u)), o, None], inst, off, us)
+
+
+@_cached
+def _spelled_scalars(ver, excl, whole_hours):
+    parts = [st.just(['marker']), st.just(['remove']), st.booleans().map(lambda b: ['bool', b]),
+             spelled_numbers(excl), spelled_quantities(excl), strs(), strs(), uris(True), refs(excl),
+             dates(), times(), datetimes(), zoneless_datetimes(whole_hours), coords(), st.just(['null']), bins()]
+    if ver == '3.0':
+        parts += [st.just(['na']), xstrs()]
+    return st.one_of(*parts)
+
+
+@_cached
+def _spelled_values(ver, depth, excl, whole_hours):
+    sc = _spelled_scalars(ver, excl, whole_hours)
+    if ver != '3.0' or depth <= 0:
+        return sc
+    inner = _spelled_values(ver, depth - 1, excl, whole_hours)
+    lists = st.lists(inner, max_size=3).map(lambda l: ['list', l])
+    dicts = st.lists(st.tuples(dict_keys(), inner), max_size=3, unique_by=lambda kv: kv[0]).map(
+        lambda kv: ['dict', [list(x) for x in kv]])
+    grids_ = _spelled_grids('3.0', depth - 1, excl, whole_hours, 2, 2, 1)
+    return st.one_of(sc, sc, sc, lists, dicts, grids_)
+
+
+@_cached
+def _spelled_grids(ver, depth, excl, whole_hours, max_cols, max_rows, max_meta):
+    col_names = st.lists(names(), min_size=1, max_size=max_cols, unique=True)
+
+    def metas(v, n, forbid):
+        return st.lists(st.tuples(names().filter(lambda x: x not in forbid), _spelled_values(v, depth, excl, whole_hours)),
+                        max_size=n, unique_by=lambda kv: kv[0]).map(lambda kv: [list(x) for x in kv])
+
+    @st.composite
+    def build(draw):
+        v = ver if ver is not None else draw(st.sampled_from(['2.0', '3.0']))
+        meta = draw(metas(v, max_meta, ('ver',)))
+        cols = [[n, draw(metas(v, 2, ('name',))) if draw(st.integers(0, 3)) == 0 else []] for n in draw(col_names)]
+        cell = _spelled_values(v, depth, excl, whole_hours)
+        rows = []
+        for _ in range(draw(st.integers(0, max_rows))):
+            row = []
+            for c in cols:
+                if draw(st.integers(0, 3)) != 0:
+                    x = draw(cell)
+                    if x[0] != 'null':
+                        row.append([c[0], x])
+            rows.append(row)
+        return ['grid', v, meta, cols, rows]
+    return build()
+
+
+def spelled_grids(ver=None, depth=2, excl=frozenset(), whole_hours=False, max_cols=3, max_rows=3, max_meta=2):
+    return _spelled_grids(ver, depth, frozenset(excl), whole_hours, max_cols, max_rows, max_meta)
+
+
+def spelling_plans(max_size=80):
+    return st.lists(st.integers(0, 11), max_size=max_size)
